@@ -156,19 +156,12 @@ def check_reject_keeps_buffer(prog, rep):
     when the request arrived is still in the state, the same vector (not taken out, not replaced, not cleared)"""
     import blockutil
     from blockutil import Trace
-    cands = blockutil.fns_calling(prog, "block_handler::extending_splice")
     es = find_body(prog, "block_handler::extending_splice")
-    if len(cands) != 1 or es is None:
-        rep.missing("C11.4", "the (unique) handler function calling extending_splice")
+    anchor = blockutil.upload_anchor(prog)
+    if anchor is None or es is None:
+        rep.missing("C11.4", "the handler function calling extending_splice (or a caller of it holding the request)")
         return
-    body = cands[0]
-    req_arg = None
-    for i in range(body["arg_count"]):
-        if "request::CoapRequest" in prog.types[body["locals"][i + 1]["ty"]]["s"]:
-            req_arg = i
-    if req_arg is None:
-        rep.missing("C11.4", "request argument of %s" % body["path"])
-        return
+    body, req_arg, _budget_i = anchor
     entry = {}
 
     def setup(tr, I, st):
